@@ -191,8 +191,8 @@ package keeper
 //@ func (MsgServer) UpdateParams
 //@   ensures err == nil ==> req.Authority == ms.authority                                                                     // C12: authority_only
 //@   ensures err == nil ==> Params != None && card(Validators) <= val(Params).MaxValidators                                    // C13: max_validators_not_below_current
-//@   ensures err == nil ==> val(Params).BridgeExecutors == val(req.Params).BridgeExecutors && val(Params).Admin == val(req.Params).Admin && val(Params).MaxValidators == val(req.Params).MaxValidators
-//@        && val(Params).HookMaxGas == val(req.Params).HookMaxGas && val(Params).FeeWhitelist == val(req.Params).FeeWhitelist       // C12: requested_roles_take_effect_at_once
+//@   ensures err == nil ==> val(Params).BridgeExecutors == old(val(req.Params).BridgeExecutors) && val(Params).Admin == old(val(req.Params).Admin) && val(Params).MaxValidators == old(val(req.Params).MaxValidators)
+//@        && val(Params).HookMaxGas == old(val(req.Params).HookMaxGas) && val(Params).FeeWhitelist == old(val(req.Params).FeeWhitelist)       // C12: requested_roles_take_effect_at_once
 //@   assigns Params, *req
 
 //@ func (MsgServer) SpendFeePool
